@@ -1032,7 +1032,7 @@ def parse_primary_expr(lexer, unary_minus=False):
     elif token.type == "pattern":
         try:
             pattern = ValuePattern(token.value[2:-2])
-        except re.error as e:
+        except (re.error, OverflowError) as e:
             raise CklSyntaxError(f"Invalid pattern ({e})", token.pos)
         result = NodeLiteral(pattern, token.pos)
         result = invoke(lexer, result)
